@@ -283,7 +283,7 @@ theorem C02_btls_send_accepts_prefix (s : St) (buf : Bytes) (h : HAns) (ws : Lis
                 simp only [Res.n.injEq] at hr
                 obtain ⟨hk, _⟩ := hr
                 subst hk
-                refine ⟨by simp only [MAX_PENDING]; omega, by omega, ?_⟩
+                refine ⟨by simp only [MAX_PENDING, Generated.MAX_PENDING_WRITE]; omega, by omega, ?_⟩
                 rw [f.accepted, hacc]
 
 /-- **retry discipline**: OpenSSL is handed a new buffer only when XCM retains nothing - whenever an SSL_write could not
